@@ -301,6 +301,10 @@ def pauli_blocks(run, repo):
 
 def check(run):
     repo = run.repo
+    # a compiled layer holds every one of its gates (a gate passed over would act as the identity: a map-less gate must make compile fail)
+    from . import circ as _circ
+    for pkg_ in ('pyclifford', 'torchclifford'):
+        _circ.layer_compile(run, repo.cls(pkg_, 'CliffordLayer').methods['compile'])
     eff = K.effects_of(repo)
     n = 0
     for rel, names in ((K.PY_U, ['random_pair', 'random_pauli', 'random_clifford', 'stabilizer_measure']),
